@@ -87,7 +87,8 @@ RULE = ('per-axis (in,out) length cells enumerated exhaustively up to a bound an
         'an operation of the history alphabets; special slices (class H) = coordinate-vector kind {fft, offset, linspace, cumsum, recentred} x direction '
         'per axis x route {Slices class, x / y setters, negative dx, focus(efl < 0)} x shapes 1..9 x 1..9 and every length 1..420 for the rounded-zero kinds; '
         'pad sweep (class I) = every (axis length 1..64, pad count 0..9) cell on both axes x every pad / crop form, Q exactly 1 with out_shape; a case is non-trivial when the array has >= 2 samples or the shape changes / the history '
-        'contains a mutator; distinct = distinct descriptor (shapes, mode, fill, dtype, layout, offsets, full op list)')
+        'contains a mutator; distinct = distinct descriptor (shapes, mode, fill, dtype, layout, offsets, full op list); '
+        'backends (class N\') = {numpy.fft, minimal shim without fftfreq / next_fast_len} x (every axis length up to a bound for the axes / grids; every shape 1..9 x 1..9 for psd DC / cosine peak, linear-phase transfer function = circular shift, focus / unfocus)')
 ASSUMPTIONS = ['origin sample of an axis of length n is index n//2 (the convention the property states)',
                'for non-constant pad modes only the placement of the original block and agreement with numpy.pad of '
                'that placement is required',
@@ -106,14 +107,16 @@ ASSUMPTIONS = ['origin sample of an axis of length n is index n//2 (the conventi
                'special slices: "the origin sample" of a user-supplied coordinate vector is the one sample whose coordinate is zero to rounding (|x| <= 1e-9 '
                'of the spacing) while every other sample is at least half a spacing away; vectors without such a sample (even-length symmetric linspace, origin '
                'cropped away) are excluded and counted; coordinate vectors given as lists / tuples raise TypeError on the current tree (out of domain); a '
-               'negative dx is in domain (the current tree builds descending grids with the zero on n//2 and Wavefront.focus(efl < 0) produces them)']
+               'negative dx is in domain (the current tree builds descending grids with the zero on n//2 and Wavefront.focus(efl < 0) produces them)',
+               'swapping prysm.mathops.fft._srcmodule for numpy.fft or for a module exposing only fft/ifft/fft2/ifft2/fftn/ifftn/fftshift/ifftshift is a documented configuration; forward_ft_unit, fttools.fftfreq, interferogram.psd (explicit unit window), convolution.apply_transfer_functions, focus / unfocus are correct under both on the current tree (angular_spectrum calls fft.fftfreq directly and raises under the shim: out of domain)']
 REQUIRED = ['pad2d.placement', 'crop_center.placement', 'fftrange.origin', 'make_xy_grid.origin', 'forward_ft_unit.origin',
             'roundtrip.crop(pad)', 'slices.through-origin', 'centroid.point-source',
             'reuse.pad2d.later-call', 'reuse.crop_center.later-call', 'reuse.centroid.layout', 'reuse.slices.layout',
             'history.slices.through-current-origin', 'history.grid-origin-after-centring-op', 'history.wavefront.shadow',
             'precision.32-then-64.grids',
             'forms.pad2d', 'forms.Wavefront.pad2d', 'forms.Interferogram.pad', 'forms.crop', 'forms.grids', 'forms.centroid', 'forms.slices',
-            'special.slices.nearest-zero-sample', 'sweep.pad-forms']
+            'special.slices.nearest-zero-sample', 'sweep.pad-forms',
+            'backend.fft-origin-laws']
 
 CTX = None
 
@@ -1874,6 +1877,110 @@ def pad_sweep_workload(ctx, rng):
                     ctx.violation(f'C04/roundtrip/{routine}/{"|".join(axes)}', f'{routine} does not undo the pad exactly (in {(n0, n1)}, padded {S})', desc)
 
 
+# ---- HARDENING5.md class N': FFT backends lacking optional helpers (fftfreq / next_fast_len fallbacks become live) ------------------
+
+class _ShimFFT:
+    """Minimal FFT backend: only the transforms and the two shifts (delegating to scipy.fft); no fftfreq, no next_fast_len,
+    no set_workers -- the kind of module prysm documents putting into prysm.mathops.fft._srcmodule (mkl_fft's interface)."""
+
+    def __init__(self):
+        import scipy.fft as sfft
+        for name in ('fft', 'ifft', 'fft2', 'ifft2', 'fftn', 'ifftn', 'fftshift', 'ifftshift'):
+            setattr(self, name, getattr(sfft, name))
+
+
+def backend_workload(ctx, rng):
+    """Frequency axes, grids and the origin laws that go through prysm.mathops.fft, under numpy.fft and under the minimal shim.
+    Oracles: the closed form (arange(n)-n//2)/(n dx); a point source / constant <-> flat spectrum / DC on the origin sample; a pure
+    cosine of k cycles peaks at +-k/(n dx); a linear-phase transfer function built from the axes handed to a user callable is an
+    integer circular shift (np.roll); unfocus(focus(x)) == x."""
+    import numpy.fft as npfft
+    from prysm import fttools, coordinates, propagation, interferogram, convolution
+    from ..util import fft_backend
+    M = 'backend.fft-origin-laws'
+    NB = ctx.pick(36, 300)
+    NS = ctx.pick(9, 20)
+    for bname, mod in (('numpy.fft', npfft), ('shim', _ShimFFT())):
+        tag = f'backend:{bname}'
+        with fft_backend(mod):
+            # (a) axes and grids, every n
+            for n in range(1, NB + 1):
+                if not ctx.mine(n):
+                    continue
+                dx = [1.0, 0.37, 2.5e-3, 12.5, float(rng.uniform(1e-3, 1e3))][n % 5]
+                desc = {'wl': 'backend-axes', 'backend': bname, 'n': n, 'dx': dx, 'class': f'{tag}:axes:{parity(n)}'}
+                ctx.case(desc)
+                with ctx.guard(f'C04/forward_ft_unit/{tag}', desc):
+                    ref = (np.arange(n) - n // 2) / (n * dx)
+                    u = np.asarray(fttools.forward_ft_unit(dx, n))
+                    u0 = np.asarray(fttools.forward_ft_unit(dx, n, shift=False))
+                    f = np.asarray(fttools.fftfreq(n, dx))
+                    for form, v, r, z in (('shift=True', u, ref, n // 2), ('shift=False', u0, np.fft.ifftshift(ref), 0),
+                                          ('fftfreq', f, np.fft.ifftshift(ref), 0)):
+                        ok = v.shape == (n,) and v[z] == 0.0 and np.count_nonzero(v == 0.0) == 1 and np.allclose(v, r, rtol=1e-13, atol=0)
+                        ctx.require(M, ok, f'C04/forward_ft_unit/{tag}/{form}/{parity(n)}',
+                                    'frequency axis under a swapped FFT backend is not (arange(n)-n//2)/(n dx) with its zero on the origin index',
+                                    desc, got=v[:6].tolist())
+                    fttools.fftrange(n)
+                    coordinates.make_xy_grid((n, (n * 7) % 11 + 1), dx=dx)
+            # (b) origin laws through the transforms, every parity pair of small shapes
+            k = -1
+            for n0 in range(1, NS + 1):
+                for n1 in range(1, NS + 1):
+                    k += 1
+                    if not ctx.mine(k):
+                        continue
+                    dx = [0.5, 1.0, 0.37][k % 3]
+                    desc = {'wl': 'backend-laws', 'backend': bname, 'shape': (n0, n1), 'dx': dx, 'class': f'{tag}:laws:{parity(n0)}{parity(n1)}'}
+                    ctx.case(desc, nontrivial=n0 * n1 >= 2)
+                    pp = f'{parity(n0)}{parity(n1)}'
+                    c0, c1 = n0 // 2, n1 // 2
+                    unit = np.ones((n0, n1))   # explicit unit window: the guessed default window is degenerate on tiny arrays
+                    with ctx.guard(f'C04/psd/{tag}', desc):
+                        ux, uy, p = interferogram.psd(np.ones((n0, n1)), dx, window=unit)
+                        ux, uy, p = np.asarray(ux), np.asarray(uy), np.asarray(p)
+                        iy, ix = np.unravel_index(int(np.argmax(p)), p.shape)
+                        ok = (iy, ix) == (c0, c1) and ux[iy, ix] == 0.0 and uy[iy, ix] == 0.0
+                        ctx.require(M, ok, f'C04/psd/{tag}/dc-peak-off-zero-frequency/{pp}',
+                                    'PSD of a constant: the DC peak is not on sample (n0//2, n1//2) or its reported frequency is not 0', desc,
+                                    got=[int(iy), int(ix), float(ux[iy, ix]), float(uy[iy, ix])])
+                        if n1 >= 5:
+                            kc = 1 + k % ((n1 - 1) // 2)
+                            h = np.cos(2 * np.pi * kc * np.arange(n1) / n1)[None, :] * np.ones((n0, 1))
+                            ux, uy, p = interferogram.psd(h, dx, window=unit)
+                            ux, uy, p = np.asarray(ux), np.asarray(uy), np.asarray(p)
+                            iy, ix = np.unravel_index(int(np.argmax(p)), p.shape)
+                            want = kc / (n1 * dx)
+                            ok = abs(abs(float(ux[iy, ix])) - want) <= 1e-12 * want and uy[iy, ix] == 0.0
+                            ctx.require(M, ok, f'C04/psd/{tag}/cosine-peak-frequency/{pp}',
+                                        'PSD of a cosine of k cycles: the peak is not reported at +-k/(n dx), fy = 0', desc,
+                                        got=[int(iy), int(ix), float(ux[iy, ix]), float(uy[iy, ix])], want=want)
+                    s0 = int(rng.integers(0, n0))
+                    s1 = int(rng.integers(0, n1))
+                    obj = rng.standard_normal((n0, n1))
+                    for sh in (True, False):
+                        with ctx.guard(f'C04/apply_transfer_functions/{tag}', desc):
+                            def tf(fx, fy, _s0=s0, _s1=s1):
+                                return np.exp(-2j * np.pi * dx * (np.asarray(fx) * _s1 + np.asarray(fy) * _s0))
+                            got = np.asarray(convolution.apply_transfer_functions(obj, dx, [tf], shift=sh))
+                            # an integer circular shift is exactly diagonal in the DFT (the Nyquist term of an even axis is (-1)**s, real)
+                            want = np.roll(obj, (s0, s1), axis=(0, 1))
+                            ctx.close(M, got, want, f'C04/apply_transfer_functions/{tag}/shift={sh}/linear-phase-is-not-a-circular-shift/{pp}',
+                                      'a linear-phase transfer function built from the frequency axes handed to the callable does not shift the image by that many samples',
+                                      dict(desc, shift=sh, s=(s0, s1)), rtol=1e-9, atol=1e-9)
+                    if n0 > 1 and n1 > 1:
+                        with ctx.guard(f'C04/focus/{tag}', desc):
+                            a = marker_array((n0, n1), 'complex128', rng)
+                            Q = [1, 2, 1.5][k % 3]
+                            ff = np.asarray(propagation.focus(np.ones((n0, n1), dtype=complex), Q))
+                            iy, ix = np.unravel_index(int(np.argmax(abs(ff))), ff.shape)
+                            ctx.require(M, (iy, ix) == (ff.shape[0] // 2, ff.shape[1] // 2), f'C04/focus/{tag}/flat-field-focus-off-origin/{pp}',
+                                        'focus of a flat field does not peak on the origin sample of the padded array', dict(desc, Q=Q), got=[int(iy), int(ix)])
+                            back = np.asarray(propagation.unfocus(propagation.focus(a, 1), 1))
+                            ctx.close(M, back, a, f'C04/focus/{tag}/unfocus(focus(x))!=x/{pp}', 'unfocus(focus(x, Q=1), Q=1) != x',
+                                      desc, rtol=1e-9, atol=1e-9)
+
+
 def run(ctx):
     global CTX
     CTX = ctx
@@ -2092,6 +2199,8 @@ def _run(ctx):
     # --- 6c. special values / magnitudes / structural sweeps (HARDENING3.md classes G, H, I) --------------------
     special_slices_workload(ctx, ctx.rng('c04-special'))
     pad_sweep_workload(ctx, ctx.rng('c04-sweep'))
+    # --- 6d. FFT backends lacking optional helpers (HARDENING5.md class N') ---------------------------------------
+    backend_workload(ctx, ctx.rng('c04-backend'))
     # --- 7. histories on one object (class B), a share of them under precision 32 first (class C) -----
     history_workload(ctx)
     # --- 8. precision 32 -> 64 switch for the grid routines (class C) ---------------------------------
